@@ -495,9 +495,97 @@ struct Runner {
 	}
 #endif
 
+	// Batch sweep (C02, C01, C04): request batches over structurally related destinations — the same state
+	// twice, a state and a sibling of one of its ancestors, ancestor and descendant, in every order — queued
+	// for ONE processing step, with idle callbacks and approving guards, from varying configurations.  This is
+	// where "later requests override earlier conflicting ones" and the ancestor climb of `requestImmediate`
+	// are decided; random scenarios reach such triples far too rarely.
+	int relativeOf(int x) {
+		Script& s = script();
+		const unsigned r = s.prng.below(100);
+		if (r < 20) return x;
+		if (r < 50) {								// a sibling of x or of one of its ancestors
+			int a = x;
+			for (unsigned up = s.prng.below(3); up > 0 && a > 0 && STATES[a].parent > 0; --up) a = STATES[a].parent;
+			const int p = a > 0 ? STATES[a].parent : -1;
+			if (p >= 0 && STATES[p].width > 0) {
+				int id = p + 1; const int k = static_cast<int>(s.prng.below(static_cast<unsigned>(STATES[p].width)));
+				for (int i = 0; i < k; ++i) id += STATES[id].size;
+				return id;
+			}
+		}
+		if (r < 65) {								// an ancestor
+			int a = x;
+			for (unsigned up = 1 + s.prng.below(3); up > 0 && a > 0; --up) a = STATES[a].parent >= 0 ? STATES[a].parent : 0;
+			return a;
+		}
+		if (r < 80) return x + static_cast<int>(s.prng.below(static_cast<unsigned>(STATES[x].size)));	// a descendant
+		return s.randomState(true);
+	}
+
+	void sweepBatches(uint64_t seed, int index, int budget) {
+		Script& s = script();
+		s.prng = Prng{seed * 5555557ull + 31};
+		s.knobs = Knobs{};
+		s.sweeping = true;
+		Out& o = out();
+		o << "scenario " << index << "\n" << "shape " << SHAPE_TEXT << "\n";
+		configLine();
+		for (int k = 0; k < 2; ++k) {
+			o << "op " << k << " new\n";
+			s.firstActivation = true; construct(k, k ? 0xFF : 0x00); s.firstActivation = false;
+			o << "end\n"; snap(k);
+		}
+#if VH_MANUAL
+		o << "op 0 enter\n";
+		enterCall(0);
+		s.firstActivation = true;
+		{ ApiScope scope; inst(0).enter(); }
+		s.firstActivation = false;
+		o << "end\n"; snap(0);
+#endif
+		long batches = 0;
+		const int k = 0;
+		for (int n = 0; n < budget; ++n) {
+			if (s.prng.chance(35)) {				// move to another configuration first
+				const int dest = s.randomState(false);
+				o << "op " << k << " imm C " << dest << " -\n";
+				apiRequest(k, true, 0, dest, -1);
+				o << "end\n"; snap(k);
+			}
+			const int count = 2 + static_cast<int>(s.prng.below(3));
+			const int x = s.randomState(true);
+			int y = x;
+			for (int b = 0; b < count; ++b) {
+				int dest;
+				if (b == 0)			dest = x;
+				else if (b == 1)	dest = y = relativeOf(x);
+				else {
+					const unsigned w = s.prng.below(100);
+					dest = w < 45 ? x : w < 60 ? y : w < 80 ? relativeOf(y) : relativeOf(x);
+				}
+				const unsigned q = s.prng.below(100);
+				int kind = q < 64 ? 0 : q < 76 ? 1 : q < 88 ? 2 : s.randomKind(true);
+				o << "op " << k << " req " << std::string(1, KIND_LETTER[kind]) << " " << dest << " -\n";
+				apiRequest(k, false, kind, dest, -1);
+				o << "end\n"; snap(k);
+			}
+			o << "op " << k << " update\n";
+			enterCall(k); { ApiScope scope; inst(k).update(); }
+			o << "end\n"; snap(k);
+			++batches;
+			if (o.buf.size() > (1u << 20)) o.flush();
+		}
+		s.sweeping = false;
+		for (int j = 0; j < 2; ++j) { o << "op " << j << " destroy\n"; destroy(j); o << "end\n"; }
+		o << "# stat batch_sweep_batches=" << static_cast<long long>(batches) << "\n";
+		o.flush();
+	}
+
 	void scenario(uint64_t seed, int index, int opCount) {
 		Script& s = script();
 		s.prng = Prng{seed * 1000003ull + static_cast<uint64_t>(index)};
+		s.recentCount = 0;
 		Knobs& kn = s.knobs;
 		kn = Knobs{};
 		kn.idle     = 40 + s.prng.below(55);
@@ -507,6 +595,7 @@ struct Runner {
 		kn.planEdit = s.prng.below(30);
 		kn.allowSelect  = true;		// anonymous heads answer the defaults select() = 0, utility() = 1
 		kn.allowUtility = !skipListed("utility");
+		kn.allowZeroUtil = index % 3 == 1;	// every third scenario: utility() may answer exactly 0 (outside random regions)
 		Out& o = out();
 		o << "scenario " << index << "\n";
 		o << "shape " << SHAPE_TEXT << "\n";
@@ -539,10 +628,14 @@ struct Runner {
 			runOps(0, copyAt);
 			copyConstruct(0); copyConstruct(1);
 			const Prng rewind = s.prng;
+			int rewindRecent[4]; const int rewindCount = s.recentCount;
+			for (int i = 0; i < 4; ++i) rewindRecent[i] = s.recent[i];
 			o << "# copy-pass original\n";
 			runOps(copyAt, opCount);
 			o << "# copy-pass copy\n";
 			s.prng = rewind;
+			s.recentCount = rewindCount;
+			for (int i = 0; i < 4; ++i) s.recent[i] = rewindRecent[i];
 			base = 2;
 			runOps(copyAt, opCount);
 			o << "# copy-pass end\n";
@@ -601,11 +694,18 @@ struct Runner {
 				o << "op " << k << " query\n";
 				Qy q; enterCall(k); { ApiScope scope; m.query(q); }
 			} else if (r < 62) {
-				const int kind = s.randomKind(true), dest = s.randomState(true), payload = s.randomPayload();
-				o << "op " << k << " req " << std::string(1, KIND_LETTER[kind]) << " " << dest << " " << (payload >= 0 ? std::to_string(payload) : std::string("-")) << "\n";
-				apiRequest(k, false, kind, dest, payload);
+				// one request, or (every third time) a burst of 2..4 queued for the same processing step
+				const int more = s.prng.chance(33) ? 1 + static_cast<int>(s.prng.below(3)) : 0;
+				for (int b = 0; ; ++b) {
+					const int kind = s.randomKind(true), dest = s.requestDest(), payload = s.randomPayload();
+					o << "op " << k << " req " << std::string(1, KIND_LETTER[kind]) << " " << dest << " " << (payload >= 0 ? std::to_string(payload) : std::string("-")) << "\n";
+					apiRequest(k, false, kind, dest, payload);
+					if (b == more) break;
+					o << "end\n";
+					snap(k);
+				}
 			} else if (r < 74) {
-				const int kind = s.randomKind(false), dest = s.randomState(true), payload = s.randomPayload();
+				const int kind = s.randomKind(false), dest = s.requestDest(), payload = s.randomPayload();
 				o << "op " << k << " imm " << std::string(1, KIND_LETTER[kind]) << " " << dest << " " << (payload >= 0 ? std::to_string(payload) : std::string("-")) << "\n";
 				apiRequest(k, true, kind, dest, payload);
 			}
@@ -717,6 +817,8 @@ inline int run(int argc, char** argv) {
 	if (sweep > 0)
 		runner.sweepC12(seed, scenarios, sweep);
 #endif
+	if (sweep > 0)
+		runner.sweepBatches(seed, scenarios + 1, sweep / 2);
 	out() << "# stat assertion_hits=" << static_cast<long long>(g_assertionHits) << "\n";
 	out() << "# stat allocations_inside_api=" << static_cast<long long>(allocStats().inside) << "\n";
 	out() << "# stat allocations_by_harness=" << static_cast<long long>(allocStats().outside) << "\n";
